@@ -1,6 +1,6 @@
 ---- MODULE MC ----
 (* Model-checking instances of RcProxy: constants for the per-property configurations. *)
-EXTENDS RcProxy
+EXTENDS RcProxy, Json
 CONSTANTS c1, c2
 Slot3 == [s \in {"A", "A2", "B", "C", "U"} |-> CASE s = "A" -> "n1" [] s = "A2" -> "n1" [] s = "B" -> "n2" [] s = "C" -> "n3" [] OTHER -> "none"]
 Slot2 == [s \in {"A", "B", "U"} |-> CASE s = "A" -> "n1" [] s = "B" -> "n2" [] OTHER -> "none"]
@@ -21,6 +21,17 @@ MR1x4 == (c1 :> 4)
 MR2x2 == (c1 :> 2) @@ (c2 :> 2)
 MR2x21 == (c1 :> 2) @@ (c2 :> 1)
 Symm == Permutations({c1, c2})
-\* prints the environment schedule of every behaviour that reached quiescence (used with -simulate)
-PrintSched == halted => PrintT(<<"SCHED", sched>>)
+\* ---- generation: with -simulate, print the environment's schedule of every behaviour that reached quiescence
+\* (or the depth bound) as one JSON line; lib/gen_tlc.py turns the lines into STEP scenarios for the real proxy
+GClients == {"c1", "c2"}
+GMaxReq == [c \in GClients |-> 4]
+GNodes == {"n1", "n2", "n3"}
+MenuGen == {R("get", <<"A">>), R("get", <<"B">>), R("set", <<"C">>), R("mget", <<"A", "B", "A">>), R("mget", <<"A", "A2">>),
+            R("del", <<"A", "C">>), R("mset", <<"B", "C">>), R("ping", <<>>), R("unknown", <<>>)}
+MenuGenQ == MenuGen \cup {R("quit", <<>>)}
+MenuGenU == MenuGen \cup {R("mget", <<"A", "U">>), R("get", <<"U">>)}
+AKgenErr == {<<"ok", "", "">>, <<"nil", "", "">>, <<"err", "LOADING", "">>, <<"err", "WRONGTYPE", "">>}
+AKgenRedir == {<<"ok", "", "">>, <<"moved", "", "n1">>, <<"moved", "", "n3">>, <<"ask", "", "n2">>, <<"ask", "", "n3">>, <<"moved", "", "nx">>}
+PrintViol == mon.viol # {} => PrintT(<<"VSCHED", ToJson(sched)>>)
+PrintSched == (halted \/ TLCGet("level") >= 90) => PrintT(<<"SCHED", ToJson(sched)>>)
 ====
